@@ -13,6 +13,7 @@ EXT = 'urn:vk:ext'
 TREE = 'urn:vk:tree'
 CTX = 'urn:vk:ctx'
 POLY = 'urn:vk:poly'
+FX = 'urn:vk:fx'
 
 
 class N:
@@ -269,9 +270,24 @@ POLY_XSD = f'''<?xml version="1.0" encoding="UTF-8"?>
 '''
 
 FAMILIES = {'shop': SHOP_XSD, 'tree': TREE_XSD, 'ctx': CTX_XSD}
-FAMILY_NS = {'shop': SHOP, 'tree': TREE, 'ctx': CTX, 'poly': POLY}
+FAMILY_NS = {'shop': SHOP, 'tree': TREE, 'ctx': CTX, 'poly': POLY, 'fx': FX}
 # families with special purposes (not part of the shared rotation): xsi:type-dependent identity constraints
-EXTRA_FAMILIES = {'poly': POLY_XSD}
+FX_XSD = f'''<?xml version="1.0" encoding="UTF-8"?>
+<xs:schema xmlns:xs="{XS}" targetNamespace="{FX}" xmlns:f="{FX}" elementFormDefault="qualified">
+  <xs:element name="fx">
+    <xs:complexType>
+      <xs:sequence>
+        <xs:element name="d" type="xs:decimal" fixed="1.0" minOccurs="0" maxOccurs="unbounded"/>
+        <xs:element name="s" type="xs:string" fixed="a b" minOccurs="0" maxOccurs="unbounded"/>
+        <xs:element name="n" type="xs:decimal" minOccurs="0" maxOccurs="unbounded"/>
+      </xs:sequence>
+      <xs:attribute name="k" type="xs:decimal" fixed="2.50"/>
+    </xs:complexType>
+  </xs:element>
+</xs:schema>
+'''
+
+EXTRA_FAMILIES = {'poly': POLY_XSD, 'fx': FX_XSD}
 
 
 def _sku(i):
@@ -453,7 +469,27 @@ def gen_poly(rng, fault=None):
     return root
 
 
-GENERATORS = {'shop': gen_shop, 'tree': gen_tree, 'ctx': gen_ctx, 'poly': gen_poly}
+def gen_fx(rng, fault=None):
+    """Fixed values whose effective type varies through xsi:type (value-space comparison depends on it).
+    Documents are a mix of valid and invalid ones by design."""
+    F = FX
+    root = N(F, 'fx')
+    if rng.random() < 0.5:
+        root.attrs.append(('', 'k', rng.choice(('2.5', '2.50', '02.500', '2.51'))))
+    for _ in range(rng.randint(0, 3)):
+        xt = rng.choice((None, None, 'xs:integer', 'xs:int'))
+        text = rng.choice(('1', '2', '01')) if xt else rng.choice(('1.0', '1', '1.00', '2', '1.5', '+1.0'))
+        root.children.append(N(F, 'd', [(XSI, 'type', xt)] if xt else [], text=text))
+    for _ in range(rng.randint(0, 3)):
+        xt = rng.choice((None, None, 'xs:token', 'xs:normalizedString'))
+        root.children.append(N(F, 's', [(XSI, 'type', xt)] if xt else [], text=rng.choice(('a b', 'a  b', ' a b ', 'a\tb', 'ab'))))
+    for _ in range(rng.randint(0, 2)):
+        xt = rng.choice((None, 'xs:integer'))
+        root.children.append(N(F, 'n', [(XSI, 'type', xt)] if xt else [], text=rng.choice(('1', '2')) if xt else rng.choice(('1.5', '3'))))
+    return root
+
+
+GENERATORS = {'shop': gen_shop, 'tree': gen_tree, 'ctx': gen_ctx, 'poly': gen_poly, 'fx': gen_fx}
 
 
 # ---------------------------------------------------------------------------------------------
@@ -580,7 +616,7 @@ SPECIAL_IDENTITY_FAULTS = ('dup_vat',)
 
 def default_prefixes(family, rng=None):
     ns = FAMILY_NS[family]
-    base = {'shop': 's', 'tree': 't', 'ctx': 'c', 'poly': 'p'}[family]
+    base = {'shop': 's', 'tree': 't', 'ctx': 'c', 'poly': 'p', 'fx': 'f'}[family]
     if rng is None:
         return {ns: base, EXT: 'e'}
     return {ns: rng.choice((base, '', 'q')), EXT: 'e'}
@@ -594,4 +630,6 @@ def render_doc(root, family, rng=None, prefixes=None):
         extra = f' xmlns:s="{SHOP}"'
     if family == 'poly' and prefixes.get(POLY) != 'p':
         extra = f' xmlns:p="{POLY}"'
+    if family == 'fx':
+        extra = f' xmlns:xs="{XS}"'
     return render(root, prefixes, extra_root_attrs=extra)
